@@ -263,16 +263,3 @@ Section Url.
     | None => false
     end.
 End Url.
-
-(* ------------------------------------------------------------------ AccountKeyPEM (sequential) *)
-
-(** GetAccount with a configured account key, one call, no concurrency.
-    [key_matches]: the stored key file equals the configured PEM; [reg_ok]: the reg file is
-    present; [ca_knows]: the CA has an account for the key (newAccount onlyReturnExisting).
-    Result: (success, looked up at the CA, saved to storage). Never registers. *)
-Definition keypem_outcome (key_matches reg_ok ca_knows with_email : bool) : bool * bool * bool :=
-  if key_matches then
-    if reg_ok then (true, false, false)
-    else if with_email then (false, false, false)      (* loadAccount's error is returned as is *)
-    else (ca_knows, true, ca_knows)                    (* without e-mail: falls through to the look-up *)
-  else (ca_knows, true, ca_knows).
